@@ -38,6 +38,13 @@ func nList(xs []uint64) string {
 }
 
 func opTerm(o *Op) string {
+	if o.K == "bid" {
+		return App("XBid", N(o.S))
+	}
+	return App("XBase", baseOpTerm(o))
+}
+
+func baseOpTerm(o *Op) string {
 	switch o.K {
 	case "sched":
 		return App("OSched", N(o.Cur), Bool(o.NotCur), nList(o.Slots))
@@ -70,7 +77,11 @@ func rowTerm(r *Row) string {
 	for i, p := range r.Probes {
 		probes[i] = Record("p_slot", N(p.Slot), "p_has", Bool(p.Has), "p_job", Bool(p.Job))
 	}
-	return Record("r_sizes", nList(r.Sizes), "r_running", nList(r.Running), "r_probes", List(probes))
+	bids := None()
+	if r.Bids != nil {
+		bids = Some(nList(*r.Bids))
+	}
+	return Record("r_sizes", nList(r.Sizes), "r_running", nList(r.Running), "r_probes", List(probes), "r_bids", bids)
 }
 
 func soakTerm(id uint64, in *SoakInput, obs *SoakObs) string {
@@ -317,6 +328,7 @@ type soakGen struct {
 	// scheduler gap: operations left until the goroutines parked behind ScheduleJob continue
 	gapLeft  int
 	gapSlots map[uint64]bool // slots whose job was set up by a parked goroutine
+	onlyPath string          // bid soaks: "" (both paths), "bid" or "auction"
 }
 
 // a slot number that never has a duty: `finish` of it does nothing in the code and in the model; it
@@ -400,6 +412,113 @@ func (g *soakGen) sched(cur uint64, notcur bool, slots []uint64) {
 	}
 }
 
+// strayBid: a request for a bid (either path) for a slot far from the slot s the chain is at.
+func (g *soakGen) strayBid(s uint64) {
+	r := g.r
+	var x uint64
+	switch r.Range(0, 4) {
+	case 0: // far future
+		x = s + uint64(r.Range(1000, 10000000))
+		g.fam["bid-stray-far-future"] = true
+	case 1: // very far future (still far from the end of uint64)
+		x = (uint64(1) << uint(r.Range(33, 61))) + uint64(r.Range(0, 1000))
+		g.fam["bid-stray-far-future"] = true
+	case 2: // beyond the window, not by much
+		x = s + uint64(r.Range(33, 200))
+		g.fam["bid-stray-future"] = true
+	case 3: // far past
+		if s <= 40 {
+			x = 0
+		} else {
+			x = s - uint64(r.Range(33, int(min(s, 100000))))
+		}
+		g.fam["bid-stray-past"] = true
+	default: // slot 0
+		x = 0
+		g.fam["bid-stray-past"] = true
+	}
+	kind, other := "bid", "auction"
+	if r.Chance(1, 3) {
+		kind, other = "auction", "bid"
+	}
+	if g.onlyPath != "" {
+		kind, other = g.onlyPath, g.onlyPath
+	}
+	g.add(Op{K: kind, S: x})
+	if r.Chance(1, 3) {
+		g.add(Op{K: kind, S: x}) // asked again (the API: from the cache if it is still there)
+	}
+	if r.Chance(1, 3) {
+		g.add(Op{K: other, S: s}) // and the slot we are at, again
+	}
+}
+
+// genBidSoak: a run of the block relay alone: requests for bids slot after slot (proposal path and
+// builder API), with requests for slots far from the chain's among them, then ordinary running for
+// longer than the cache's window.
+func genBidSoak(r *Rand) (SoakInput, []string) {
+	g := &soakGen{r: r, spe: 4, jobs: map[uint64]bool{}, running: map[uint64]bool{}, fam: map[string]bool{"bid-soak": true}}
+	base := uint64(r.Range(0, 5000))
+	if r.Chance(1, 4) {
+		base = uint64(1)<<32 + uint64(r.Range(0, 100000))
+	}
+	n := r.Range(45, 160)
+	nStray := r.Range(0, 3)
+	if r.Chance(1, 2) {
+		nStray = 1
+	}
+	strayAt := map[int]bool{}
+	for i := 0; i < nStray; i++ {
+		if i == 0 {
+			strayAt[r.Range(0, 8)] = true // early: a long ordinary run follows
+		} else {
+			strayAt[r.Range(0, n-1)] = true
+		}
+	}
+	density := r.Range(1, 4)
+	mode := r.Range(0, 3) // 0, 3: both paths mixed
+	switch mode {
+	case 1:
+		g.fam["bid-api-only"] = true
+		g.onlyPath = "bid"
+	case 2:
+		g.fam["bid-proposals-only"] = true
+		g.onlyPath = "auction"
+	}
+	for i := 0; i < n; i++ {
+		s := base + uint64(i)
+		if strayAt[i] {
+			g.strayBid(s)
+		}
+		if r.Chance(density, 4) {
+			pick := r.Range(0, 2)
+			switch mode {
+			case 1: // a Vouch that only serves the builder API (validators it does not propose for)
+				pick = 1
+			case 2: // proposals only
+				pick = 0
+			}
+			switch pick {
+			case 0:
+				g.add(Op{K: "auction", S: s})
+			case 1:
+				g.add(Op{K: "bid", S: s})
+			default:
+				g.add(Op{K: "auction", S: s})
+				g.add(Op{K: "bid", S: s})
+			}
+			if r.Chance(1, 8) {
+				g.add(Op{K: "bid", S: s + 1})
+			}
+		}
+	}
+	tags := []string{"soak"}
+	for f := range g.fam {
+		tags = append(tags, f)
+	}
+	return SoakInput{SPE: 4, Ops: g.ops}, tags
+}
+
 func genSoak(r *Rand, epochs int, spe uint64) (SoakInput, []string) {
 	g := &soakGen{r: r, spe: spe, jobs: map[uint64]bool{}, running: map[uint64]bool{}, fam: map[string]bool{}}
 	startEpoch := uint64(r.Range(0, 3))
@@ -425,6 +544,7 @@ func genSoak(r *Rand, epochs int, spe uint64) (SoakInput, []string) {
 		}
 	}
 	var pendingFinish []uint64 // slots left executing, to be finished later
+	bidAPI := r.Chance(1, 2)   // this soak has requests from the builder API, stray slots included
 	for k := 0; k < epochs; k++ {
 		e := startEpoch + uint64(k)
 		first := e * spe
@@ -573,6 +693,16 @@ func genSoak(r *Rand, epochs int, spe uint64) (SoakInput, []string) {
 					g.add(Op{K: "auction", S: s}) // asked twice (another parent)
 				}
 			}
+			// the builder API: a beacon node asks for the bid of this slot or the next (answered from
+			// the cache after our own auction, otherwise an auction on the spot)
+			if bidAPI && r.Chance(1, 6) {
+				g.add(Op{K: "bid", S: s + uint64(r.Range(0, 1))})
+				g.fam["bid-api"] = true
+			}
+			// ... or for a slot that has nothing to do with the chain time (the slot is the caller's)
+			if bidAPI && (r.Chance(1, 14) || (k == 0 && s == prep+1 && r.Chance(2, 3))) {
+				g.strayBid(s)
+			}
 		}
 	}
 	for _, x := range pendingFinish {
@@ -596,7 +726,7 @@ func genSoak(r *Rand, epochs int, spe uint64) (SoakInput, []string) {
 
 func TestC20(t *testing.T) {
 	col := NewCollector("C20", "Check.C20",
-		"a soak case is non-trivial when it has at least one started attestation job and one head event; a fan case when at least one provider answers or the strategy's deadline passes; a jobs case when a job is scheduled")
+		"a soak case is non-trivial when it has at least one started attestation job and one head event, or more than 20 requests for a builder bid; a fan case when at least one provider answers or the strategy's deadline passes; a jobs case when a job is scheduled")
 	col.ShardSize = 25
 	zerolog.SetGlobalLevel(zerolog.TraceLevel) // as vouch's main does (logging.go)
 	rng := NewRand(Seed())
@@ -608,7 +738,7 @@ func TestC20(t *testing.T) {
 			col.Count("soak-problem:" + obs.Problem)
 			tags = append(tags, "harness-problem")
 		}
-		starts, heads := 0, 0
+		starts, heads, bidReqs := 0, 0, 0
 		for _, o := range in.Ops {
 			col.Count("op-" + o.K)
 			switch o.K {
@@ -616,10 +746,17 @@ func TestC20(t *testing.T) {
 				starts++
 			case "head":
 				heads++
+			case "auction", "bid":
+				bidReqs++
+			}
+		}
+		for _, tg := range tags {
+			if strings.HasPrefix(tg, "bid-") {
+				col.Count("soak-" + tg)
 			}
 		}
 		key, _ := json.Marshal(in)
-		col.Add(Case{Term: soakTerm(col.NextID(), in, &obs), Key: string(key), Nontrivial: starts > 0 && heads > 0, Tags: tags,
+		col.Add(Case{Term: soakTerm(col.NextID(), in, &obs), Key: string(key), Nontrivial: (starts > 0 && heads > 0) || bidReqs > 20, Tags: tags,
 			Sample: map[string]any{"input": Input{Soak: in}, "observed": Observed{Soak: summarise(&obs)}}})
 	}
 	famTime := map[string]time.Duration{}
@@ -763,6 +900,11 @@ func TestC20(t *testing.T) {
 			in, tags := genSoak(r, epochs, spe)
 			addSoak(&in, tags)
 		}
+		// the block relay's cache of builder bids under requests for slots in any order
+		for i := 0; i < n/25; i++ {
+			in, tags := genBidSoak(rng.Fork())
+			addSoak(&in, tags)
+		}
 	}
 	lap("soaks")
 	if err := col.Flush(); err != nil {
@@ -800,7 +942,11 @@ func regenUnblind(r *Rand, in FanInput, family string) FanInput {
 func summarise(o *SoakObs) *SoakObs {
 	s := &SoakObs{Problem: o.Problem}
 	if len(o.Rows) > 0 {
-		s.Rows = []Row{o.Rows[len(o.Rows)-1]}
+		last := o.Rows[len(o.Rows)-1]
+		for i := len(o.Rows) - 1; i >= 0 && last.Bids == nil; i-- {
+			last.Bids = o.Rows[i].Bids
+		}
+		s.Rows = []Row{last}
 	}
 	return s
 }
